@@ -1,5 +1,5 @@
 """C15 — corrupted files are detected, never served as data."""
-from gen import lib, corrupt, crash, recover
+from gen import lib, corrupt, crash, recover, tfile
 
 PROP_FILE = "props/C15.v"
 RULE = ("corrupt: histories with flushes, compactions and reopens are run to quiescence and closed; "
@@ -14,7 +14,11 @@ RULE = ("corrupt: histories with flushes, compactions and reopens are run to qui
         "every manifest and every write-ahead log of small databases is also recovered by the extracted "
         "byte-exact recovery function Recover.recover_image and compared with the real DB::open: same "
         "success/failure, same last sequence number, same contents (the model reproduces skipped "
-        "records, mis-framing after a checksum failure, rejected manifests).")
+        "records, mis-framing after a checksum failure, rejected manifests). tfile: table files built by "
+        "the real TableBuilder: the extracted layout model (block trailer check, handles, footer) must "
+        "accept every stored block, decode the footer to the reader's handles and re-encode it byte for "
+        "byte, and agree with the real reader on every sampled single-byte change (does the table open; "
+        "which data blocks still read back).")
 TRUSTED = ["SimFs images; the oracle knows every value ever written per key from the history"]
 ASSUMPTIONS = ["single-byte corruption (CRC-32C's detection of any single changed byte is proved: C15a_crc32c_detects_single_byte)"]
 
@@ -42,12 +46,15 @@ def gen_recoverc(tier, rng):
 
 def suites(tier, seed, rng):
     return [corrupt.CorruptSuite(corpus() + corrupt.gen_cases(tier, rng)),
-            recover.RecoverSuite(gen_recoverc(tier, rng), "recoverc")]
+            recover.RecoverSuite(gen_recoverc(tier, rng), "recoverc"),
+            tfile.TFileSuite(tfile.gen_cases(tier, rng))]
 
 
 def replay_suites(rp):
     if rp.get("suite") == "recover":
         return [recover.RecoverSuite([rp["case"]], "recoverc")]
+    if rp.get("suite") == "tfile":
+        return [tfile.TFileSuite([rp["case"]])]
     return [corrupt.CorruptSuite([rp["case"]])]
 
 
@@ -64,4 +71,6 @@ def nontrivial(suite, case):
 
 
 def classify(suite, case):
+    if suite == "tfile":
+        return "tfile:bs=" + case.split(" ")[1].split(":")[0]
     return "recoverc" if suite == "recover" else "corrupt"
